@@ -1,7 +1,7 @@
 /-
   Lang — a deep embedding of the core of the Reduino DSL (source side) and of the emitted C++ (target side).
-  Source fragment: int/bool values; + - *, bitwise & | ^ (W1), unary minus, comparisons, and/or/not, conditional
-  expressions; assignment, augmented assignment (all binary operators), if/elif/else, while, for-range, break,
+  Source fragment: int/bool values; + - *, bitwise & | ^, `abs`, two-argument `min`/`max` (W1), unary minus, comparisons,
+  and/or/not, conditional expressions; assignment, augmented assignment (all binary operators), if/elif/else, while, for-range, break,
   serial write, sleep; a run-once prologue and an optional `while True:` main loop.
 -/
 namespace Reduino.Lang
@@ -9,6 +9,9 @@ namespace Reduino.Lang
 inductive BinOp where | add | sub | mul | band | bor | bxor
   deriving DecidableEq, Repr
 inductive CmpOp where | lt | le | gt | ge | eq | ne
+  deriving DecidableEq, Repr
+
+inductive MinMax where | min | max
   deriving DecidableEq, Repr
 
 inductive Expr where
@@ -22,6 +25,8 @@ inductive Expr where
   | or (a b : Expr)
   | not (a : Expr)
   | ite (c a b : Expr)
+  | abs (a : Expr)                      -- the builtin `abs(a)`
+  | mm (k : MinMax) (a b : Expr)        -- the builtins `min(a, b)` / `max(a, b)`; n-ary calls are the left fold `min(min(a, b), c)`
   deriving DecidableEq, Repr
 
 inductive Stmt where
@@ -117,6 +122,16 @@ def BinOp.pyVal : BinOp → Val → Val → Val
 /-- the Python `ast` operator class each constructor stands for (key of the transpiler's `_BIN` table, see GenOb/Ops) -/
 def BinOp.astName : BinOp → String
   | .add => "Add" | .sub => "Sub" | .mul => "Mult" | .band => "BitAnd" | .bor => "BitOr" | .bxor => "BitXor"
+
+/-- Python's `min(x, y)` / `max(x, y)`: the FIRST extremal operand, returned as it is (a bool stays a bool) -/
+def MinMax.pick : MinMax → Val → Val → Val
+  | .min, x, y => if y.toInt < x.toInt then y else x
+  | .max, x, y => if y.toInt > x.toInt then y else x
+
+/-- Arduino's macros `min(a,b) ((a)<(b)?(a):(b))`, `max(a,b) ((a)>(b)?(a):(b))` on the operand values -/
+def MinMax.cpick : MinMax → Val → Val → Val
+  | .min, x, y => if x.toInt < y.toInt then x else y
+  | .max, x, y => if x.toInt > y.toInt then x else y
 
 def CmpOp.astName : CmpOp → String
   | .lt => "Lt" | .le => "LtE" | .gt => "Gt" | .ge => "GtE" | .eq => "Eq" | .ne => "NotEq"
